@@ -237,6 +237,12 @@ func Normalize(n *Node) *Node {
 		for i := 1; i < len(c.C); i++ {
 			c.C[i] = wrap(c.C[i], 1)
 		}
+		// h[f1][f2] is one node with two filters in the text (the parser decides
+		// by the kind of h whether they are stacked or nested); a predicate
+		// node whose head is an unparenthesised predicate node is the same text
+		if c.C[0].K == Pred {
+			c.C = append(append([]*Node{}, c.C[0].C...), c.C[1:]...)
+		}
 	case Path:
 		var steps []*Node
 		keep := c.Keep
